@@ -369,6 +369,58 @@ func (j *quantJudge) genCase(r *gen.RNG, i int) (ref.Bits, int) {
 	case 8: // dp = 0 with fractional values (package functions)
 		c, _ := r.Coef()
 		return ref.Encode(neg, c, r.Range(-40, 5)), 0
+	case 10: // structured discarded part of any length: [guard digit][z zeros][digit][tail], z up to the whole width
+		k := r.Range(1, 33)
+		keepDigits := r.Range(1, 34-k)
+		if r.Chance(1, 3) {
+			keepDigits = 34 - k
+		}
+		keep := r.Digits(keepDigits)
+		if r.Chance(1, 6) {
+			keep = new(big.Int).Sub(ref.Pow10(keepDigits), ref.One)
+		}
+		if r.Bool() {
+			keep.SetBit(keep, 0, 0) // even kept part: a tie would round down
+			if keep.Sign() == 0 {
+				keep.SetInt64(2)
+			}
+		}
+		ds := make([]byte, k)
+		for p := range ds {
+			ds[p] = '0'
+		}
+		pos := 0
+		if r.Bool() { // explicit guard digit first
+			ds[0] = byte('0' + r.Pick(0, 4, 5, 5, 9, r.Intn(10)))
+			pos = 1
+		}
+		if pos < k {
+			z := r.Intn(k - pos) // run of zeros
+			if r.Chance(1, 3) {
+				z = r.Pick(0, 1, 3, 7, 8, 9, 15, 16, 17, 18, 19) % (k - pos)
+			}
+			pos += z
+			ds[pos] = byte('0' + r.Pick(1, 4, 5, 5, 6, 9))
+			pos++
+			switch r.Intn(4) {
+			case 0: // zeros to the end
+			case 1:
+				ds[k-1] = '1'
+			case 2:
+				for ; pos < k; pos++ {
+					ds[pos] = '9'
+				}
+			default:
+				for ; pos < k; pos++ {
+					ds[pos] = byte('0' + r.Intn(10))
+				}
+			}
+		}
+		tail, _ := new(big.Int).SetString(string(ds), 10)
+		c := new(big.Int).Mul(keep, ref.Pow10(k))
+		c.Add(c, tail)
+		e := r.Pick(r.Range(-40, 40), r.Range(-40, 40), r.Exp())
+		return ref.Encode(neg, c, e), -(e + k)
 	case 9: // specials and zeros
 		if r.Bool() {
 			return ref.Encode(neg, new(big.Int), r.Exp()), r.Range(-50, 50)
